@@ -1,6 +1,7 @@
 import RichModel.Lemmas.TextHistory
 import RichModel.Lemmas.TextJoin
 import RichModel.Lemmas.TextRender
+import RichModel.Lemmas.TextHistory2
 import RichModel.Gen.CellWidths
 /-!
 # C05 — Text editing operations keep characters and styles attached
@@ -15,13 +16,19 @@ names applied to it, base style first, then the covering spans in span order (fr
 names: any re-ordering, loss or gain of a style is visible; interpret in rich's `Style` algebra
 afterwards).  No theorem bounds the length of the strings, the number of spans or of operations.
 
-Not proved here (modelled, compared with rich on every run, evaluated directly on rich; the statements
-are the open obligations of this property):
-* `divide_view` : `Inv t → sorted offsets ≤ len →
-    (divide repaired t offs).map view = pieces of `view t` between consecutive offsets` (and with it
-  `split`, `text[a:b]`, `expand_tabs`); `assemble_view` (the invariant is proved, `inv_assemble`);
-* `truncate_view`/`align_view`/`rstrip_view` (instances of `setPlain_view` below once the string function
-  is unfolded).
+`divide_view` (and `split_char_spec`, `expandTabs_ink'` used below) are proved in `Lemmas/WrapDivide.lean` /
+`Lemmas/WrapTabs.lean`, which the word-wrap property C02 built on this model and which are imported
+read-only; they are restated here because they are obligations of C05's statement.
+
+Still partial (full statements beside the `_partial` theorems):
+* `get_slice_view_partial`: bounds that normalise to `start ≤ stop` (for `stop < start` Python gives `""`;
+  the model's `divide([start, stop])[1]` is compared with rich on every run, not proved);
+* `split_view_partial`: single-character separator, `include_separator=True`, `allow_blank=False`, stated
+  as "the pieces concatenate to the text" (the pieces' boundaries and the other flag combinations are
+  compared with rich, not proved; multi-character separators with a proper border are outside the domain);
+* `expand_tabs_view_partial`: the invariant and the non-whitespace characters with their styles; the
+  column arithmetic of the inserted blanks is compared with rich and evaluated against `str.expandtabs`-like
+  reference semantics on every run, not proved.
 -/
 namespace RichModel.C05
 open RichModel RichModel.Text
@@ -81,6 +88,25 @@ example : HistPre (0 : Nat) (Text.new Variant.repaired ['a', '\r', 'b'] 5)
   rename_i t1 h1 t2 h2 t3 h3 t4 h4
   cases h1; cases h2; cases h3; cases h4; cases ht'
   show (3 : Nat) < _
+  decide
+
+/-- every operation of the full set — the above plus `rstrip`, `truncate`, `align`, `join` (as separator
+and as element), `assemble`, `divide`, slices, single-character `split`, `expand_tabs` — keeps the invariant -/
+theorem inv_step_all [BEq σ] (cw : Char → Nat) (null : σ) (t t' : Text σ) (op : OpX σ) (h : Inv t) (hp : op.Pre t)
+    (hs : stepX cw null t op = .ok t') : Inv t' :=
+  inv_stepX cw null t t' op h hp hs
+
+/-- …and so does every history over the full operation set, of any length, for any cell-width function -/
+theorem inv_history_all [BEq σ] (cw : Char → Nat) (null : σ) (ops : List (OpX σ)) (t t' : Text σ) (h : Inv t)
+    (hp : HistPreX cw null t ops) (hr : runX cw null t ops = .ok t') : Inv t' :=
+  inv_runX cw null ops t t' h hp hr
+
+example : HistPreX (fun _ => 1) (0 : Nat) (Text.new Variant.repaired ['a', 'b', 'c', 'd', ' '] 5 [⟨0, 3, 1⟩])
+    [.rstrip, .truncate 3 (some .ellipsis) false, .align .center 7 '*', .slice (some (-4)) none] := by
+  refine ⟨trivial, fun _ _ => ⟨trivial, fun _ _ => ⟨(by show isStripCode '*' = false; decide), fun t3 h3 => ⟨?_, fun _ _ => trivial⟩⟩⟩⟩
+  rename_i t1 h1 t2 h2
+  cases h1; cases h2; cases h3
+  show (Py.sliceIndices _ _ _).1 ≤ (Py.sliceIndices _ _ _).2
   decide
 
 /-! ## what `render()` shows is the reference semantics -/
@@ -144,6 +170,80 @@ example : (Text.join Variant.repaired (Text.new Variant.repaired [','] (7 : Nat)
     [Text.new Variant.repaired ['a'] 1 [⟨0, 1, 2⟩], Text.new Variant.repaired ['b'] 3]).view
     = [('a', [7, 1, 2]), (',', [7, 7]), ('b', [7, 3])] := by
   rfl
+
+/-- `Text.assemble(*parts, style=b)`: the parts in order; strings under the base style (and their own
+style, if given), texts with every character's effective style placed under the base style -/
+theorem assemble_view (parts : List (Part σ)) (style : σ) (j : Option Justify) (o : Option Overflow)
+    (nw : Option Bool) (e : List Char) (ts : Option Nat) (hp : ∀ p ∈ parts, p.Ok) :
+    (assemble Variant.repaired parts style j o nw e ts).view = parts.flatMap (partView style) :=
+  view_assemble parts style j o nw e ts hp
+
+/-- **`divide` cuts the styled string** (repaired code: the span order is carried by index, not by the
+value-keyed `order` dict).  Ascending offsets inside a consistent text give one consistent line per piece,
+with the piece's characters and, on every character, exactly the effective style it had. -/
+theorem divide_view [BEq σ] (t : Text σ) (offs : List Nat) (h : Inv t)
+    (hs : AscFrom 0 offs) (hb : ∀ o ∈ offs, o ≤ t.plain.length) :
+    ∃ lines, t.divide Variant.repaired offs = .ok lines ∧
+      lines.map Text.view = pieces offs t.view ∧
+      lines.map (·.plain) = pieces offs t.plain ∧
+      (∀ l ∈ lines, Inv l ∧ l.style = t.style ∧ l.justify = t.justify ∧ l.overflow = t.overflow) :=
+  Text.divide_view t offs h hs hb
+
+/-- FULL STATEMENT: for all `a b`, `t[a:b]` shows `(view t)[a:b]` (Python slice semantics).
+PROVED: whenever the normalised bounds are in order; MISSING: `stop < start` (result `""`). -/
+theorem get_slice_view_partial [BEq σ] (t : Text σ) (a b : Option Int) (h : Inv t)
+    (hse : (Py.sliceIndices t.plain.length a b).1 ≤ (Py.sliceIndices t.plain.length a b).2) :
+    ∃ u, t.getSlice Variant.repaired a b = .ok u ∧ Inv u ∧ u.style = t.style ∧
+      u.view = (t.view.drop (Py.sliceIndices t.plain.length a b).1).take
+        ((Py.sliceIndices t.plain.length a b).2 - (Py.sliceIndices t.plain.length a b).1) :=
+  getSlice_view t a b h hse
+
+/-- FULL STATEMENT: `t.split(sep, include_separator, allow_blank)` yields the pieces `str.split` yields, each
+with its styles.  PROVED: single-character separator kept in the pieces: consistent pieces under the same base
+style whose styled strings concatenate to the styled string of the text (nothing lost, moved or restyled). -/
+theorem split_view_partial [BEq σ] (d : Char) (t : Text σ) (h : Inv t) :
+    ∃ parts, t.split Variant.repaired [d] true = .ok parts ∧
+      parts.flatMap Text.view = t.view ∧ ∀ l ∈ parts, Inv l ∧ l.style = t.style :=
+  Wrap.split_char_spec d t h
+
+/-- FULL STATEMENT: `expand_tabs(ts)` shows `expandtabs` of the styled string (tab → blanks up to the next
+multiple of `ts`, the first blank in the tab's style, the rest in the base style).  PROVED: it succeeds, keeps
+the invariant and the base style, is the identity without a tab, and every non-whitespace character survives,
+in order, with its effective style under one more application of the base style.  MISSING: the count and
+placement of the blanks. -/
+theorem expand_tabs_view_partial [BEq σ] (t : Text σ) (h : Inv t) (ts : Nat) (hts : 0 < ts) :
+    ∃ q, t.expandTabs Variant.repaired (some ts) = .ok q ∧ Inv q ∧ q.style = t.style ∧
+      (t.plain.contains '\t' = false → q = t) ∧
+      (t.plain.contains '\t' = true → Wrap.nsv q.view = (Wrap.nsv t.view).map (fun p => (p.1, t.style :: p.2))) :=
+  Wrap.expandTabs_ink' t h ts hts
+
+/-- `rstrip()`: the text without its trailing whitespace, every remaining character as it was -/
+theorem rstrip_view (t : Text σ) (h : Inv t) :
+    Inv t.rstrip ∧ t.rstrip.view = t.view.take (pyRstrip t.plain).length :=
+  ⟨inv_rstrip t h, view_rstrip t h⟩
+
+/-- `truncate(max_width, overflow, pad)`: the string is what `truncate` makes of an ordinary string
+(`truncStr`: `set_cell_size`, the ellipsis, the padding), and every position keeps the style attached to it -/
+theorem truncate_view (cw : Char → Nat) (t : Text σ) (w : Int) (ov : Option Overflow) (pad : Bool) (h : Inv t) :
+    Inv (t.truncate cw w ov pad) ∧
+    (t.truncate cw w ov pad).plain = truncStr cw t.plain w ((ov.orElse (fun _ => t.overflow)).getD Overflow.fold) pad ∧
+    (t.truncate cw w ov pad).style = t.style ∧
+    (t.truncate cw w ov pad).view = annot (t.truncate cw w ov pad).plain t.effStyle 0 :=
+  truncate_spec cw t w ov pad h
+
+/-- `align(method, width, ch)` (repaired: pads only by a positive excess): `truncate(width)`, then base-styled
+padding on the right / both sides / the left; no character of the truncated text moves or changes style -/
+theorem align_view (cw : Char → Nat) (t : Text σ) (m : AlignMethod) (w : Int) (ch : Char) (h : Inv t)
+    (hch : isStripCode ch = false) :
+    Inv (t.align Variant.repaired cw m w ch) ∧
+    (t.align Variant.repaired cw m w ch).view =
+      (let t1 := t.truncate cw w
+       let excess := (w - (cellLen cw t1.plain : Int)).toNat
+       match m with
+       | .left => t1.view ++ List.replicate excess (ch, [t.style])
+       | .center => List.replicate (excess / 2) (ch, [t.style]) ++ t1.view ++ List.replicate (excess - excess / 2) (ch, [t.style])
+       | .right => List.replicate excess (ch, [t.style]) ++ t1.view) :=
+  align_spec cw t m w ch h hch
 
 /-- the `plain` setter (and with it `truncate`, `rstrip`, `pad*`): position `i` shows the new
 character with what was attached to position `i` -/
